@@ -27,8 +27,18 @@ type c19Case struct {
 
 const sec = int64(1e9)
 
-// script draws a valid timed (or untimed) changelog script over rows [key, tag].
-func script(t *rapid.T, label string, maxLen int, timed bool) []mon.Msg {
+// listOf builds a list of ints.
+func listOf(xs ...int64) gen.JV {
+	v := gen.JV{K: "list", L: []gen.JV{}}
+	for _, x := range xs {
+		v.L = append(v.L, gen.Int(x))
+	}
+	return v
+}
+
+// script draws a valid timed (or untimed) changelog script over rows [key, tag]; with lists, keys and tags are lists of
+// ints that are prefixes of one another.
+func script(t *rapid.T, label string, maxLen int, timed bool, lists bool) []mon.Msg {
 	n := rapid.IntRange(0, maxLen).Draw(t, label+"n")
 	var msgs []mon.Msg
 	type live struct {
@@ -67,6 +77,13 @@ func script(t *rapid.T, label string, maxLen int, timed bool) []mon.Msg {
 				key = gen.Int(int64(1 + kk%2))
 			}
 			vals := []gen.JV{key, gen.Int(int64(rapid.IntRange(0, 1).Draw(t, lab+"tag")))}
+			if lists {
+				// keys and payloads that are prefixes of one another: the join must tell them apart as keys and as stored rows
+				if key.K != "null" {
+					vals[0] = [][]gen.JV{{listOf(1)}, {listOf(1, 2, 3)}}[key.I-1][0]
+				}
+				vals[1] = []gen.JV{listOf(), listOf(0, 1)}[vals[1].I]
+			}
 			tt := int64(0)
 			if timed {
 				tt = lastWM + int64(rapid.IntRange(1, 4).Draw(t, lab+"t"))*sec
@@ -107,7 +124,7 @@ func modelJoin(spec JoinSpec, l, r *rowBag) mon.Bag {
 	matchedL, matchedR := map[string]bool{}, map[string]bool{}
 	for lk, lv := range l.rows {
 		for rk, rv := range r.rows {
-			if lv[0].TypeID != octosql.TypeIDNull && rv[0].TypeID != octosql.TypeIDNull && lv[0].Compare(rv[0]) == 0 {
+			if lv[0].TypeID != octosql.TypeIDNull && rv[0].TypeID != octosql.TypeIDNull && mon.RowKey(lv[:1]) == mon.RowKey(rv[:1]) { // the model's own equality (keys are ints or lists of ints), not octosql's Compare
 				out.Add(mon.RowKey(append(append([]octosql.Value{}, lv...), rv...)), l.count[lk]*r.count[rk])
 				matchedL[lk], matchedR[rk] = true, true
 			}
@@ -296,8 +313,9 @@ func genCase(maxLen int, withSchedule bool) func(t *rapid.T) c19Case {
 		c := c19Case{Spec: JoinSpec{Kind: rapid.SampledFrom([]string{"inner", "inner", "left", "right", "outer"}).Draw(t, "kind"), NLeft: 2, NRight: 2}}
 		timedL := rapid.IntRange(0, 5).Draw(t, "timedL") != 0
 		timedR := rapid.IntRange(0, 5).Draw(t, "timedR") != 0
-		c.Left = script(t, "l", maxLen, timedL)
-		c.Right = script(t, "r", maxLen, timedR)
+		lists := rapid.IntRange(0, 3).Draw(t, "lists") == 0
+		c.Left = script(t, "l", maxLen, timedL, lists)
+		c.Right = script(t, "r", maxLen, timedR, lists)
 		if withSchedule {
 			s := make([]byte, 0, len(c.Left)+len(c.Right)+2)
 			l, r := len(c.Left)+1, len(c.Right)+1
